@@ -709,9 +709,12 @@ META["C07"] = {"engine": "eval-family", "design_ref": "DESIGN.md 5/C07",
             "content is never 'safe' in the tree that is evaluated (flags do not launder taint), that no call ran on behalf of a "
             "tainted node or received a tainted value (also through references), and that a surviving tainted dynamic node fails the "
             "build with UnsafeError, for every history x every safe-flag assignment; behaviours replayed with recording targets, "
-            "recorded random histories judged by TLC on the logged call log (names + received data); mutations DefaultSafeOverwrite "
-            "(the pre-fix code), NoArgGate and NoFnGate must be refuted.",
-    "note": _EVAL_NOTE + "; !eval / f-string nodes are covered by the opaque gate only (their name resolution is C12); include-by-unsafe-content is C06's file-system model"}
+            "recorded random histories judged by TLC on the logged call log (names + received data). The evaluation caches are part "
+            "of the model (a value evaluated earlier outside any safety requirement carries a taint and is refused while all nodes "
+            "must be safe), so are names resolved by evaluated code (!eval <name>: never yields a tainted atom) and the import of "
+            "target names. Mutations DefaultSafeOverwrite, NoArgGate, NoFnGate, NoTaint (F18), MergeLaundersUnsafe (F22) - the "
+            "pre-fix codes - must be refuted.",
+    "note": _EVAL_NOTE + "; of !eval / f-string code only the form `!eval <one top-level name>` is modelled here (attribute chains and other code: opaque gate; name resolution order is C12); include-by-unsafe-content is C06's file-system model"}
 META["C01"] = {"engine": "builder-family", "design_ref": "DESIGN.md 5/C01",
     "technique": "TLC model checking of AyParse/AyBuild (single-stage) + behaviour replay / trace validation against the library, PyYAML as cross-check",
     "text": "AyParse specifies how a surface document becomes a node tree (tag -> explicit flags; top-down construction outside tags, "
